@@ -12,6 +12,7 @@ import base64
 import copy
 import json
 import os
+import re
 from pathlib import Path
 
 from .. import docs
@@ -99,6 +100,53 @@ def base_documents(quick: bool):
     return bases
 
 
+def ref_shape_docs():
+    """Reference-graph shapes in every section that resolves references: self loops, cycles of length 2-3, rho shapes
+    (a tail of 1-2 links leading into a cycle that does not contain the start), long chains, dangling tails."""
+    out = []
+    shapes = {"self": (0, 1), "cycle2": (0, 2), "cycle3": (0, 3), "rho_1_1": (1, 1), "rho_1_2": (1, 2), "rho_2_2": (2, 2), "rho_2_3": (2, 3), "rho_1_3": (1, 3), "chain40": (40, 0), "dangling_tail": (3, -1)}
+    for shape, (tail, cyc) in shapes.items():
+        n = tail + max(cyc, 0)
+        names_ = [f"R{i}" for i in range(max(n, 1))]
+
+        def target(i):
+            if i + 1 < n:
+                return names_[i + 1]
+            if cyc > 0:
+                return names_[tail]
+            if cyc == 0:
+                return "Leaf"
+            return "NoSuchZq"
+        for section in ("requestBodies", "responses", "parameters", "schemas_allOf", "schemas_property", "schemas_items", "schemas_oneOf", "schemas_additional"):
+            d = docs.base_doc("3.0.3", "Ref shapes")
+            comp = d["components"]
+            op = {"operationId": "op", "responses": {"200": {"description": "ok"}}}
+            if section == "requestBodies":
+                comp["requestBodies"] = {nm: {"$ref": f"#/components/requestBodies/{target(i)}"} for i, nm in enumerate(names_)}
+                comp["requestBodies"]["Leaf"] = {"content": {"application/json": {"schema": {"type": "string"}}}}
+                op["requestBody"] = {"$ref": "#/components/requestBodies/R0"}
+            elif section == "responses":
+                comp["responses"] = {nm: {"$ref": f"#/components/responses/{target(i)}"} for i, nm in enumerate(names_)}
+                comp["responses"]["Leaf"] = {"description": "leaf"}
+                op["responses"]["200"] = {"$ref": "#/components/responses/R0"}
+            elif section == "parameters":
+                comp["parameters"] = {nm: {"$ref": f"#/components/parameters/{target(i)}"} for i, nm in enumerate(names_)}
+                comp["parameters"]["Leaf"] = {"name": "p", "in": "query", "schema": {"type": "string"}}
+                op["parameters"] = [{"$ref": "#/components/parameters/R0"}]
+            else:
+                kind = section.split("_", 1)[1]
+                S = comp["schemas"]
+                S["Leaf"] = {"type": "object", "properties": {"k": {"type": "string"}}}
+                for i, nm in enumerate(names_):
+                    ref = {"$ref": f"#/components/schemas/{target(i)}"}
+                    S[nm] = {"allOf": [ref, {"type": "object", "properties": {f"p{i}": {"type": "string"}}}]} if kind == "allOf" else {"type": "object", "required": ["nxt"], "properties": {"nxt": ref}} if kind == "property" else \
+                        {"type": "array", "items": ref} if kind == "items" else {"oneOf": [ref, {"type": "integer"}]} if kind == "oneOf" else {"type": "object", "additionalProperties": ref}
+                op["responses"]["200"]["content"] = {"application/json": {"schema": {"$ref": "#/components/schemas/R0"}}}
+            d["paths"]["/x"] = {"post": op}
+            out.append((f"{shape}:{section}", d))
+    return out
+
+
 def expected_exit(diags, fail_on_warning):
     if any(d["level"] == "ERROR" for d in diags):
         return 1
@@ -119,7 +167,8 @@ def main() -> int:
     jobs, meta = [], {}
 
     def add(label, sig, **kw):
-        j = run.job(want=[], cpu_limit=60, **kw)
+        kw.setdefault("cpu_limit", 60)
+        j = run.job(want=[], **kw)
         meta[j["id"]] = {"label": label, "sig": sig, "kw": {k: v for k, v in kw.items() if k not in ("doc",)} if "doc" not in kw or len(json.dumps(kw.get("doc"), default=str)) > 20000 else kw}
         jobs.append(j)
         return j
@@ -172,6 +221,12 @@ def main() -> int:
         shape = tuple("#" if isinstance(p, int) else (p if p in ("components", "schemas", "paths", "properties", "items", "parameters", "responses", "requestBody", "content", "schema", "allOf", "oneOf", "anyOf", "required", "enum", "default", "type", "info", "openapi", "additionalProperties") else "*") for p in ptr)
         j = add(f"node:{bname}:{'/'.join(map(str, ptr))}:{op}:{ji}", ("node", bname.split(":")[0], shape, ji, op), doc=m, via="cli" if k % 10 == 0 else None, fail_on_warning=bool(k % 20 == 0))
         meta[j["id"]]["fault"] = {"base": bname, "pointer": list(ptr), "op": op, "junk": JUNK[ji] if ji >= 0 else None}
+    # (d) reference-graph shapes
+    for label, d in ref_shape_docs():
+        j = add(f"refshape:{label}", ("refshape",) + tuple(label.split(":")), doc=d, cpu_limit=30)
+        meta[j["id"]]["fault"] = {"ref_shape": label}
+        j2 = add(f"refshape-cli:{label}", ("refshape-cli",) + tuple(label.split(":")), doc=d, via="cli", cpu_limit=30)
+        meta[j2["id"]]["fault"] = {"ref_shape": label}
     # random pairs
     for k in range(150 if quick else 3000):
         bname, bdoc = bases[k % len(bases)]
@@ -215,7 +270,8 @@ def main() -> int:
         cpu_max = max(cpu_max, res.get("cpu_s", 0))
         wit = {"label": mi["label"], "fault": mi.get("fault"), "job": {k: v for k, v in j.items() if k not in ("work",) and (k != "doc" or "fault" not in mi)}}
         if res.get("nonterminating"):
-            vd.violation("nonterminating", f"{mi['label']}: CPU bound exceeded: {res['nonterminating']['stack'][-300:]}", wit)
+            site = re.findall(r'File "[^"]*/openapi_python_client/([^"]+)", line \d+, in (\w+)', res["nonterminating"]["stack"])
+            vd.violation("nonterminating@" + (site[-1][0].replace("/", ".").replace(".py", "") + "." + site[-1][1] if site else "?"), f"{mi['label']}: CPU-time bound exceeded: {res['nonterminating']['stack'][-300:]}", wit)
             continue
         if res.get("exc"):
             x = res["exc"]
